@@ -424,6 +424,49 @@ fn sweep_leap_extreme_positions(cyc: &Cycle, rec: &Recorder) -> Tally {
 
 /// long call histories on one thread (state recycled by a wrapping counter or a fixed-capacity table): a lookup in zone A, N
 /// lookups in zone B, a different lookup in zone A, for N = 2^k - 2 .. 2^k + 1, k = 4..=17; A has three types, B two
+/// the clock route: `find_current_local_time_type`, `DateTime::now`, `UtcDateTime::now` under every answer of the system clock
+/// in {second -3..+3 around a block of transitions} x {0, 1, 499 999 999, 500 000 000, 500 000 001, 999 999 999 ns}; the clock
+/// (interposed `clock_gettime`) is owned by the harness, so the expected instant is known exactly: "now" is the second the
+/// clock shows, whatever its fraction
+#[cfg(feature = "tz-std")]
+fn sweep_clock_route(cyc: &Cycle, rec: &Recorder) -> Tally {
+    let mut tl = Tally::default();
+    let nss: [u32; 6] = [0, 1, 499_999_999, 500_000_000, 500_000_001, 999_999_999];
+    for base in [0i64, 1_700_000_000, 1 << 31, 1 << 32, 253_402_300_800] {
+        let types: Vec<MType> = (0..6).map(|i| MType::new(100 * i, i % 2 == 1, Some(["AAA", "BBB", "CCC", "DDD", "EEE", "FFF"][i as usize]))).collect();
+        let trans: Vec<(i64, usize)> = (0..5).map(|i| (base - 2 + i as i64, i + 1)).collect();
+        let z = MZone { trans, types: types.clone(), leaps: vec![], rule: Some(MRule::Fixed(types[5])) };
+        let iz = ImplZone::from_model(&z).unwrap();
+        let owned = tz::TimeZone::new(iz.trans.clone(), iz.types.clone(), iz.leaps.clone(), iz.rule).expect("zone");
+        for s in base - 3..=base + 3 {
+            for &ns in &nss {
+                tl.evals += 1;
+                let exp = z.forward(cyc, s).expect("model answer");
+                crate::hist::set_fake_clock(Some((s, ns)));
+                let r = guard(|| {
+                    let cur = owned.find_current_local_time_type().map(|l| *l).map_err(|e| format!("{e:?}"));
+                    let now = DateTime::now(owned.as_ref()).map(|d| (d.unix_time(), d.nanoseconds(), *d.local_time_type())).map_err(|e| format!("{e:?}"));
+                    let unow = tz::UtcDateTime::now().map(|d| (d.unix_time(), d.nanoseconds())).map_err(|e| format!("{e:?}"));
+                    (cur, now, unow)
+                });
+                crate::hist::set_fake_clock(None);
+                let case = || json!({"kind":"clock","base":base,"clock_seconds":s,"clock_nanoseconds":ns});
+                match r {
+                    Ok((cur, now, unow)) => {
+                        let ok = matches!(&cur, Ok(l) if same_type(l, &exp)) && matches!(&now, Ok((u, n, l)) if *u == s && *n == ns && same_type(l, &exp)) && unow == Ok((s, ns));
+                        if !ok {
+                            rec.violation("clock_route", case(), json!({"instant": [s, ns], "type": mtype_json(&exp)}), json!({"find_current_local_time_type": format!("{cur:?}"), "DateTime::now": format!("{now:?}"), "UtcDateTime::now": format!("{unow:?}")}));
+                        }
+                    }
+                    Err(m) => rec.violation("clock_route", case(), json!("no panic"), json!(m)),
+                }
+            }
+        }
+    }
+    rec.sub("clock_route", json!({"clock_answers": tl.evals}));
+    tl
+}
+
 fn sweep_long_histories(cyc: &Cycle, rec: &Recorder) -> Tally {
     let mut tl = Tally::default();
     let r = guard(|| {
@@ -608,6 +651,8 @@ pub fn run(args: &Args) -> i32 {
     rec.sub("corpus", json!({"distinct_corpus_zones": zones.len(), "files_not_expressible_in_the_model": skipped, "zones_checked": ct.zones, "lookups": ct.evals}));
     let total = total.merge(ct).merge(sweep_many_types(&cyc, &rec, thorough)).merge(sweep_leap_walks(&cyc, &rec, thorough));
     let total = if args.digest_mode { total } else { total.merge(sweep_long_histories(&cyc, &rec)) };
+    #[cfg(feature = "tz-std")]
+    let total = if args.digest_mode { total } else { total.merge(sweep_clock_route(&cyc, &rec)) };
     let total = total.merge(sweep_leap_extreme_positions(&cyc, &rec));
     // one-signed leap tables of 2.4 million records (accumulated correction >= record spacing), shared with the C12 engine
     let total = if args.digest_mode {
@@ -620,7 +665,7 @@ pub fn run(args: &Args) -> i32 {
     rec.sub("table", json!({"shapes": work.len(), "zones": total.zones, "zones_refused_as_model_predicts": total.rejected, "lookups": total.evals, "max_table_len": max_n, "all_index_sequences_up_to_len": all_seq_n}));
     rec.add(total.evals, total.nontrivial);
     rec.digest("table", total.digest);
-    rec.set_rule("zones: table length 0..=N x 4 time layouts (spaced, adjacent, around +-2^31 / 2^32 / 2^52 / 2^53 / 2^62, i64 extremes) x type-index patterns (i mod k; all 3^n sequences for small n) x 7 leap tables x {no rule, fixed rule, DST rule}; zones with 256..513 (65537) local time types; every +-1 walk of the leap correction of length <= 5 (7) x transitions at record -1/0/+1; probes: every transition -3..+3, every leap record -2..+2, 0, i64 extremes; oracle: linear-scan zone model; DateTime::from_timespec fields vs model calendar; owned == borrowed. non-trivial = probes whose expected answer differs from that of the instant one second earlier");
+    rec.set_rule("zones: table length 0..=N x 4 time layouts (spaced, adjacent, around +-2^31 / 2^32 / 2^52 / 2^53 / 2^62, i64 extremes) x type-index patterns (i mod k; all 3^n sequences for small n) x 7 leap tables x {no rule, fixed rule, DST rule}; zones with 256..513 (65537) local time types; every +-1 walk of the leap correction of length <= 5 (7) x transitions at record -1/0/+1; probes: every transition -3..+3, every leap record -2..+2, 0, i64 extremes; the clock route (find_current_local_time_type, now) under 210 answers of an interposed system clock; oracle: linear-scan zone model; DateTime::from_timespec fields vs model calendar; owned == borrowed. non-trivial = probes whose expected answer differs from that of the instant one second earlier");
     rec.set_exhaustive(true);
     rec.outcome("type");
     rec.outcome("NoAvailableLocalTimeType");
@@ -638,6 +683,11 @@ pub fn replay(case: &Value, args: &Args) -> i32 {
     let mut tl = Tally::default();
     for _ in 0..2 {
         match case["kind"].as_str().unwrap_or("") {
+            #[cfg(feature = "tz-std")]
+            "clock" => {
+                // the sweep is small: re-run it (the recorded clock answer is among its cases)
+                sweep_clock_route(&cyc, &rec);
+            }
             "zone" => {
                 let z = zone_from_json(&cyc, &case["zone"]);
                 let mut probes: Vec<i64> = case["probes"].as_array().map(|a| a.iter().filter_map(|x| x.as_i64()).collect()).unwrap_or_default();
